@@ -489,7 +489,7 @@ def gen_streams(rng, tier, seed):
             legal = list(REF[state].keys())
             op = rng.choice(legal)
         else:
-            op = rng.choice(OPS)
+            op = rng.choice(OPS + ['configure2'])
         ops.append(op)
         nxt = REF[state].get(op)
         if nxt:
@@ -537,8 +537,28 @@ def run_streams(case):
         def src_state():
             return 'IDLE' if stream is None else avdtp.State(stream.state).name
 
+        source2 = client.add_source(_codec(a2dp, avdtp, True), None)
         for op in case['ops']:
             before_src, before_snk = src_state(), sink_state()
+            if op == 'configure2':
+                # a second local source tries to configure the remote end-point that the first stream is using: must be refused
+                if ref == 'IDLE':
+                    continue
+                st, t = sim.run(client.create_stream(source2, remote), 60.0)
+                sim.loop.settle(vt_budget=10.0)
+                sim.probe('second_source_tried_a_busy_endpoint')
+                if st != 'done':
+                    sim.violation_once('stream-hang', f'stream:configure2-hangs:from={ref}', describe_task(t))
+                    t.cancel()
+                    break
+                if t.exception() is None:
+                    sim.violation_once('stream-illegal', f'stream:end-point-in-use-configured-again:from={ref}', f'a second Set Configuration on the busy end-point was accepted; sink now {sink_state()}')
+                    break
+                if (src_state(), sink_state()) != (before_src, before_snk):
+                    sim.violation_once('stream-illegal-change', f'stream:refused-configure2-changed-state:from={ref}', f'source {before_src}->{src_state()}, sink {before_snk}->{sink_state()}')
+                    break
+                done_ops += 1
+                continue
             legal = REF[ref].get(op)
             if op == 'configure':
                 coro = client.create_stream(source, remote) if (stream is None or stream.state == avdtp.State.IDLE) else stream.configure()
